@@ -90,7 +90,10 @@ package client
 //@   trusted
 //@   pure
 //@   fresh
+// ghost effect (C19): counts the restore batches that came back with at least one signature
 //@ func PostRestore
 //@   trusted
-//@   pure
+//@   modifies rst.sigbatches
 //@   fresh
+//@   ensures err == nil ==> r0 != nil && rst.sigbatches == old(rst.sigbatches) + (len(r0.Signatures) > 0 ? 1 : 0)
+//@   ensures err != nil ==> rst.sigbatches == old(rst.sigbatches)
